@@ -26,6 +26,7 @@
 #include <map>
 #include <string>
 #include <typeinfo>
+#include <sys/resource.h>
 #include <unistd.h>
 #include <vector>
 
@@ -424,6 +425,10 @@ int main(int argc, char** argv) {
   std::set_terminate(on_terminate);
   atexit(on_exit_called);
   signal(SIGALRM, on_alarm);
+  if (!__lsan_disable) {          // plain build: bound the address space so that runaway allocations fail fast (ASan has its own limit)
+    struct rlimit rl = {3ull << 30, 3ull << 30};
+    setrlimit(RLIMIT_AS, &rl);
+  }
   std::string mode = argv[1];
   if (mode == "file" && argc >= 5) {
     std::string in; if (!read_file(argv[2], &in)) return 2;
